@@ -107,7 +107,20 @@ impl<'a> G<'a> {
         Op::RegIn { name, prec, setter: false, right, h }
     }
 
+    /// override of an assignment operator (type SETTER kept): the registered handler must be used
+    /// by every later assignment, also the plain `=`
+    fn reg_setter(&mut self) -> Op {
+        let name = (*self.r.pick(&["=", "=", "+=", "-=", "|="])).to_string();
+        let h = self.case.add_handler(HandlerSpec::plain(HKind::Infix, if self.r.chance(1, 2) { Ret::Arg(1) } else { Ret::Marker }));
+        self.overrides += 1;
+        self.reg.infix.insert(name.clone(), InfixEntry { prec: 20, setter: true, right: true, imp: Impl::H(h) });
+        Op::RegIn { name, prec: 20, setter: true, right: true, h }
+    }
+
     fn reg_other(&mut self) -> Op {
+        if self.r.chance(1, 10) {
+            return self.reg_setter();
+        }
         match self.r.below(9) {
             0..=2 => {
                 let name = match self.r.below(4) {
@@ -214,6 +227,12 @@ impl<'a> G<'a> {
             vars: vec![("a".into(), Val::int(11)), ("b".into(), Val::int(12)), ("c".into(), Val::int(13)), ("x".into(), Val::int(1))],
             funcs: vec![],
         };
+        if self.reg.infix.iter().any(|(_, e)| e.setter && e.imp != Impl::Builtin) && self.r.chance(1, 3) {
+            // assignments through (possibly overridden) assignment operators
+            let op = (*self.r.pick(&["=", "+=", "-=", "|="])).to_string();
+            let stmts = vec![bin("=", rf("x"), lit_i(self.r.range(1, 9))), bin(&op, rf("x"), lit_i(self.r.range(1, 9))), rf("x")];
+            return Op::Exec { prog: Prog::Stmts(stmts), ctx: CtxRef::Fresh(vars) };
+        }
         match self.r.below(10) {
             0..=1 => {
                 // call: context function first, then the global registry, else an error
